@@ -104,7 +104,7 @@ theorem cwc_true {r : RStyle} (h : r.cwc = true) : r.bt = 0 ∧ r.pt = 0 ∧ r.i
 def finV (r : RStyle) (F : VRes) : VBox :=
   { idx := 0, top := F.tree.box.y + F.tree.box.mt, mt := F.tree.box.mt, mb := F.tree.box.mb, bt := F.tree.box.bt,
     pt := F.tree.box.pt, pb := F.tree.box.pb, bb := F.tree.box.bb, h := F.tree.box.h, height := r.height,
-    minH := r.minH, maxH := r.maxH, isRoot := r.isRoot }
+    minH := r.minH, maxH := r.maxH, isRoot := r.isRoot, lines := r.lines, lineH := r.lineH }
 
 theorem vtree_finish (r : RStyle) (cs : List RBox) (y0 : Rat) (adjIn : List Rat) (leaf : Bool) (l : VLoop) (kids : List LTree) :
     vtree (.mk r cs) (vFinish r y0 adjIn leaf l kids).tree =
@@ -134,13 +134,13 @@ def nextSt (st : VLoop) (rc : VRes) : VLoop :=
   { y := rc.tree.box.borderBottom, adj := rc.adj ++ [rc.tree.box.mb], aliased := false,
     p := if st.aliased then rc.pOut else st.p }
 
-theorem inv_node (r : RStyle) (c : RBox) (cs : List RBox) (hc : ∀ y0 adjIn, Inv y0 adjIn c) (hcs : InvList cs) :
+theorem inv_node (r : RStyle) (c : RBox) (cs : List RBox) (hl0 : r.lines = 0) (hc : ∀ y0 adjIn, Inv y0 adjIn c) (hcs : InvList cs) :
     ∀ y0 adjIn, Inv y0 adjIn (.mk r (c :: cs)) := by
   intro y0 adjIn
   unfold Inv
   have hv : vbox y0 adjIn (.mk r (c :: cs)) =
       vFinish r y0 adjIn false (vlist (vStart r y0 adjIn) (c :: cs)).1 (vlist (vStart r y0 adjIn) (c :: cs)).2 := by
-    rw [vbox]; rfl
+    rw [vbox]; simp [hl0]
   rw [hv, vtree_finish]
   obtain ⟨h1, h2, h3, h4, h5, h6⟩ := hc (vStart r y0 adjIn).y (vStart r y0 adjIn).adj
   generalize hr : vbox (vStart r y0 adjIn).y (vStart r y0 adjIn).adj c = rc at *
@@ -176,10 +176,11 @@ theorem inv_node (r : RStyle) (c : RBox) (cs : List RBox) (hc : ∀ y0 adjIn, In
   have hVmt : V.mt = r.mt := by rw [← hV]; simp [finV, vFinish, LTree.box]
   have hVmb : V.mb = r.mb := by rw [← hV]; simp [finV, vFinish, LTree.box]
   have hVh : V.height = r.height := by rw [← hV]; rfl
+  have hVl : V.lines = 0 := by rw [← hV]; exact hl0
   have hVtop : V.top = if r.cwc then y0 + collapseMargin lk.1.p else y0 + collapseMargin (adjIn ++ [r.mt]) := by
     rw [← hV]; exact finV_top _ _ _ _ _ _
   have htg : topGroup (.mk V (Tc :: Ts)) = r.mt :: if r.cwc then topGroup Tc else [] := by
-    simp only [topGroup, topList, h2, hVtb, hVmt]
+    simp only [topGroup, topList, h2, hVtb, hVmt, hVl]
     cases r.cwc <;> simp
   refine ⟨?_, ?_, ?_, ?_, ?_, ?_⟩
   · simp only [vFinish, Bool.false_eq_true, if_false]; split <;> rfl
@@ -196,7 +197,7 @@ theorem inv_node (r : RStyle) (c : RBox) (cs : List RBox) (hc : ∀ y0 adjIn, In
     · have hcwc' : r.cwc = false := by simpa using hcwc
       simp only [hcwc', if_false]
       simp
-  · simp only [botGroup, b4, hVbb, hVh, ne_auto_eq, hVmb, VTree.v]
+  · simp only [botGroup, b4, hVbb, hVh, ne_auto_eq, hVmb, VTree.v, hVl]
     simp only [vFinish, b3]
     cases (r.bb != 0 || r.pb != 0 || r.isRoot) <;> cases r.height.isAuto <;> simp
   · have hVbt : V.bt = r.bt := by rw [← hV]; simp [finV, vFinish, LTree.box]
@@ -244,11 +245,11 @@ theorem inv_node (r : RStyle) (c : RBox) (cs : List RBox) (hc : ∀ y0 adjIn, In
       split <;> grind
 
 
-theorem inv_leaf (r : RStyle) (hs : r.emptyThrough = false) : ∀ y0 adjIn, Inv y0 adjIn (.mk r []) := by
+theorem inv_leaf (r : RStyle) (hl0 : r.lines = 0) (hs : r.emptyThrough = false) : ∀ y0 adjIn, Inv y0 adjIn (.mk r []) := by
   intro y0 adjIn
   unfold Inv
   have hv : vbox y0 adjIn (.mk r []) = vFinish r y0 adjIn true (vStart r y0 adjIn) [] := by
-    rw [vbox]; rfl
+    rw [vbox]; simp [hl0, vlist]
   rw [hv, vtree_finish]
   simp only [vtreeList]
   generalize hV : finV r (vFinish r y0 adjIn true (vStart r y0 adjIn) []) = V
@@ -261,24 +262,25 @@ theorem inv_leaf (r : RStyle) (hs : r.emptyThrough = false) : ∀ y0 adjIn, Inv 
   have hVpt : V.pt = r.pt := by rw [← hV]; simp [finV, vFinish, LTree.box]
   have hVminH : V.minH = r.minH := by rw [← hV]; rfl
   have hVmaxH : V.maxH = r.maxH := by rw [← hV]; rfl
+  have hVl : V.lines = 0 := by rw [← hV]; exact hl0
   have hVtop : V.top = y0 + collapseMargin (adjIn ++ [r.mt]) := by
     rw [← hV, finV_top]
     by_cases hcwc : r.cwc = true <;> simp [vStart, hcwc]
   have hp : (vStart r y0 adjIn).p = adjIn ++ [r.mt] := by simp only [vStart]; split <;> rfl
   have hthru : thru (.mk V []) = none := by
-    simp only [thru, hVtb, hVbb, hVminH, hVh]
+    simp only [thru, hVtb, hVbb, hVminH, hVh, hVl]
     simp only [RStyle.emptyThrough, RStyle.cwc] at hs ⊢
     by_cases h1 : r.bt = 0 <;> by_cases h2 : r.pt = 0 <;> by_cases h4 : r.bb = 0 <;> by_cases h5 : r.pb = 0 <;>
       by_cases h6 : r.minH = 0 <;> simp_all
   have htg : topGroup (.mk V []) = [r.mt] := by
-    simp only [topGroup, topList, hVmt]; split <;> rfl
+    simp only [topGroup, topList, hVmt, hVl]; split <;> rfl
   refine ⟨?_, hthru, ?_, ?_, ?_, ?_⟩
   · simp [vFinish, hs]
   · show (vStart r y0 adjIn).p = _
     rw [hp, htg]
   · show V.top = _
     rw [htg, hVtop]
-  · simp only [botGroup, botList, VTree.v, hVmb]
+  · simp only [botGroup, botList, VTree.v, hVmb, hVl]
     simp only [vFinish, hs]
     simp
     split <;> rfl
@@ -300,6 +302,74 @@ theorem inv_leaf (r : RStyle) (hs : r.emptyThrough = false) : ∀ y0 adjIn, Inv 
           simp only [vStart, hcwc', Bool.false_eq_true, if_false, collapseMargin_nil]
           split <;> grind
     simp only [stackViols, stackViolsList, walkChildren, Walk.start, List.append_nil, List.nil_append]
+    simp only [heightCheck, hVh, hVminH, hVmaxH, hVl]
+    cases hh : r.height with
+    | val v =>
+      simp only [hh] at hVhh
+      exact expectEq_of_eq hVhh
+    | auto =>
+      simp only [hh] at hVhh
+      apply expectEq_of_eq
+      rw [hVhh]
+      congr 1
+      simp only [collapseSpec_nil, bne_self_eq_false, Bool.false_eq_true, if_false]
+      split <;> grind
+
+
+theorem inv_text (r : RStyle) (hl : ¬ r.lines = 0) : ∀ y0 adjIn, Inv y0 adjIn (.mk r []) := by
+  intro y0 adjIn
+  unfold Inv
+  have hv : vbox y0 adjIn (.mk r []) = vFinish r y0 adjIn false (vText r (vStart r y0 adjIn)) [] := by
+    have hb : (r.lines == 0) = false := by simpa using hl
+    rw [vbox]; simp [hl, hb]
+  rw [hv, vtree_finish]
+  simp only [vtreeList]
+  generalize hV : finV r (vFinish r y0 adjIn false (vText r (vStart r y0 adjIn)) []) = V
+  have hVmt : V.mt = r.mt := by rw [← hV]; simp [finV, vFinish, LTree.box]
+  have hVmb : V.mb = r.mb := by rw [← hV]; simp [finV, vFinish, LTree.box]
+  have hVh : V.height = r.height := by rw [← hV]; rfl
+  have hVbt : V.bt = r.bt := by rw [← hV]; simp [finV, vFinish, LTree.box]
+  have hVpt : V.pt = r.pt := by rw [← hV]; simp [finV, vFinish, LTree.box]
+  have hVminH : V.minH = r.minH := by rw [← hV]; rfl
+  have hVmaxH : V.maxH = r.maxH := by rw [← hV]; rfl
+  have hVl : V.lines = r.lines := by rw [← hV]; rfl
+  have hVlh : V.lineH = r.lineH := by rw [← hV]; rfl
+  have hVl' : (V.lines != 0) = true := by rw [hVl]; simpa using hl
+  have hp : (vStart r y0 adjIn).p = adjIn ++ [r.mt] := by simp only [vStart]; split <;> rfl
+  have hVtop : V.top = y0 + collapseMargin (adjIn ++ [r.mt]) := by
+    rw [← hV, finV_top]
+    by_cases hcwc : r.cwc = true <;> simp [vStart, vText, hcwc]
+  have hthru : thru (.mk V []) = none := by
+    simp only [thru, hVl', Bool.or_true, if_true]
+  have htg : topGroup (.mk V []) = [r.mt] := by
+    simp only [topGroup, hVmt, hVl', Bool.or_true, if_true]
+  refine ⟨?_, hthru, ?_, ?_, ?_, ?_⟩
+  · simp only [vFinish, Bool.false_eq_true, if_false]; split <;> rfl
+  · show (vText r (vStart r y0 adjIn)).p = _
+    rw [htg]; exact hp
+  · show V.top = _
+    rw [htg, hVtop]
+  · simp only [botGroup, VTree.v, hVmb, hVl', Bool.or_true, if_true, List.nil_append]
+    simp only [vFinish, vText, Bool.false_eq_true, if_false]
+    cases r.height.isAuto <;> cases (r.bb != 0 || r.pb != 0 || r.isRoot) <;> simp
+  · have hVhh : V.h = clampH (match r.height with
+        | .auto => (r.lines : Rat) * r.lineH
+        | .val v => v) r.minH r.maxH := by
+      rw [← hV]
+      simp only [finV, vFinish, LTree.box, Bool.false_eq_true, if_false]
+      cases hh : r.height with
+      | val v => simp
+      | auto =>
+        simp only [MF.isAuto, if_true, vText]
+        congr 1
+        by_cases hcwc : r.cwc = true
+        · obtain ⟨hbt, hpt, _⟩ := cwc_true hcwc
+          simp only [vStart, hcwc, if_true, collapseMargin_nil, hbt, hpt]
+          split <;> grind
+        · have hcwc' : r.cwc = false := by simpa using hcwc
+          simp only [vStart, hcwc', Bool.false_eq_true, if_false, collapseMargin_nil]
+          split <;> grind
+    simp only [stackViols, stackViolsList, walkChildren, Walk.start, List.append_nil, List.nil_append]
     simp only [heightCheck, hVh, hVminH, hVmaxH]
     cases hh : r.height with
     | val v =>
@@ -310,15 +380,17 @@ theorem inv_leaf (r : RStyle) (hs : r.emptyThrough = false) : ∀ y0 adjIn, Inv 
       apply expectEq_of_eq
       rw [hVhh]
       congr 1
-      simp only [collapseSpec_nil]
-      split <;> grind
+      simp only [hVl', if_true, hVl, hVlh]
+      grind
 
 mutual
   theorem inv_solid : (R : RBox) → solid R = true → ∀ y0 adjIn, Inv y0 adjIn R
-    | .mk r [], h => inv_leaf r (by simpa [solid, solidList] using h)
+    | .mk r [], h =>
+      if hl0 : r.lines = 0 then inv_leaf r hl0 (by simpa [solid, solidList, hl0] using h)
+      else inv_text r hl0
     | .mk r (c :: cs), h =>
-      have h' : solid c = true ∧ solidList cs = true := by simpa [solid, solidList] using h
-      inv_node r c cs (inv_solid c h'.1) (invList_solid cs h'.2)
+      have h' : r.lines = 0 ∧ solid c = true ∧ solidList cs = true := by simpa [solid, solidList] using h
+      inv_node r c cs h'.1 (inv_solid c h'.2.1) (invList_solid cs h'.2.2)
   theorem invList_solid : (cs : List RBox) → solidList cs = true → InvList cs
     | [], _ => invList_nil
     | c :: cs, h =>
@@ -330,7 +402,9 @@ end
 
 theorem vbox_eq (r : RStyle) (cs : List RBox) (y0 : Rat) (adjIn : List Rat) :
     vbox y0 adjIn (.mk r cs) =
-      vFinish r y0 adjIn cs.isEmpty (vlist (vStart r y0 adjIn) cs).1 (vlist (vStart r y0 adjIn) cs).2 := by
+      vFinish r y0 adjIn (cs.isEmpty && r.lines == 0)
+        (if r.lines = 0 then vlist (vStart r y0 adjIn) cs else (vText r (vStart r y0 adjIn), [])).1
+        (if r.lines = 0 then vlist (vStart r y0 adjIn) cs else (vText r (vStart r y0 adjIn), [])).2 := by
   rw [vbox]
 
 /-- root element: its top border edge is its own margin-top below the page content top -/
@@ -340,7 +414,7 @@ theorem root_top (r : RStyle) (cs : List RBox) (hroot : r.isRoot = true) (hs : s
   rw [h4]
   rw [vbox_eq, vtree_finish]
   have hcwc : r.cwc = false := by simp [RStyle.cwc, hroot]
-  simp only [topGroup, finV_topBarrier, hcwc, Bool.not_false, if_true, List.nil_append, collapseMargin_single, VTree.v]
+  simp only [topGroup, finV_topBarrier, hcwc, Bool.not_false, Bool.true_or, if_true, List.nil_append, collapseMargin_single, VTree.v]
   grind
 
 end WR.C10
